@@ -216,7 +216,12 @@ func (ctx *cmdContext) infoUnlocked(cs *clientState) string {
 	if cs.client.IsCloseRequested() {
 		flags.WriteRune('c')
 	}
-	if cs == ctx.cs && isAbortedExecUnlocked(cs) {
+	locked := ctx.dsc.ds
+	if ctx.txnDsc != nil {
+		// inside EXEC the lock is the one EXEC took, whatever a queued SELECT selected since
+		locked = ctx.txnDsc.ds
+	}
+	if cs == ctx.cs && isAbortedExecUnlocked(cs, locked) {
 		// only for the calling client: the watches of another connection belong to
 		// its goroutine and can't be examined from here
 		flags.WriteRune('d')
